@@ -43,15 +43,18 @@ func init() { register("C19", runC19) }
 
 // LockStep is one step of a process schedule.
 type LockStep struct {
-	Op     string   `json:"op"`             // start | run | signal | reap | observe | occupy | race | fault
+	Op     string   `json:"op"`             // start | run | signal | reap | observe | occupy | race | fault | park | resume | await
 	P      string   `json:"p,omitempty"`    // process label
 	Cmd    string   `json:"cmd,omitempty"`  // command class (see c19Command)
-	Wait   string   `json:"wait,omitempty"` // start: ready | building | none
+	Wait   string   `json:"wait,omitempty"` // start: ready | resolved (ready or exited) | building | none
 	Delays string   `json:"delays,omitempty"`
 	Sig    string   `json:"sig,omitempty"`
-	Ps     []string `json:"ps,omitempty"`   // race: the labels to resolve
+	Ps     []string `json:"ps,omitempty"`   // race: the labels to resolve; await: stop waiting when one of these is ready
 	Lazy   bool     `json:"lazy,omitempty"` // start: do not reap until a reap step (keeps a zombie)
 	Tag    string   `json:"tag,omitempty"`
+	Uid    int      `json:"uid,omitempty"`     // start/run: run the process under this (unprivileged) uid and gid; 0 = the harness's own
+	Guard  string   `json:"guard,omitempty"`   // run: label of the live holder; stop waiting as soon as the lock file no longer holds its pid
+	IfLive bool     `json:"if_live,omitempty"` // signal: skip when the process has already been reaped
 }
 
 // LockSchedule is one replayable case.
@@ -142,12 +145,20 @@ var c19Pattern = []string{
 	"contend", "build", "contend", "failing", "contend",
 	"build", "zombie", "contend", "build", "toctou",
 	"torn", "failing", "chain", "build", "contend",
+	// (the first 25 entries are the quick list of the first build round; kept in place)
+	"created", "xuid", "created", "xuid", "created", "xuid",
 }
+
+// the two unprivileged accounts of the cross-uid schedules (no passwd entry needed)
+const (
+	c19UidA = 61001
+	c19UidB = 61002
+)
 
 func pick(rng *rand.Rand, l ...string) string { return l[rng.Intn(len(l))] }
 
 func c19Schedules(r *mon.Run) []LockSchedule {
-	n := r.Pick(25, 400)
+	n := r.Pick(len(c19Pattern), 13*len(c19Pattern))
 	out := make([]LockSchedule, 0, n)
 	for i := 0; i < n; i++ {
 		out = append(out, c19Schedule(r.Seed, i))
@@ -275,6 +286,82 @@ func c19Schedule(seed int64, i int) LockSchedule {
 		class := benign()
 		run("A1", class)
 		shape = append(shape, "a:"+class)
+	case "created":
+		// A is parked (hook delay, then SIGSTOP once the state is seen) between its exclusive creation
+		// of the lock file and the write of its pid: alive, lock file empty. Openers started meanwhile
+		// run to their end (or to readiness); then A is resumed and finishes its open.
+		prebuilt := rng.Intn(2) == 0
+		if prebuilt {
+			run("P0", "bug")
+		}
+		aClass := pick(rng, "webui", "webui", "webui-ro")
+		add(LockStep{Op: "observe", Tag: "free"},
+			LockStep{Op: "start", P: "A", Cmd: aClass, Wait: "none", Delays: "cache.lock.created=2s"},
+			LockStep{Op: "park", P: "A"},
+			LockStep{Op: "observe", Tag: "A parked after creating the lock file"})
+		shape = append(shape, aClass, fmt.Sprintf("prebuilt=%v", prebuilt))
+		var long []string
+		nB := 1 + rng.Intn(2)
+		for b := 0; b < nB; b++ {
+			label := fmt.Sprintf("B%d", b)
+			class := pick(rng, "webui", "bug", "bug-new", "webui-ro", "pull", "bug")
+			if c19Command(class, 0).long {
+				add(LockStep{Op: "observe", Tag: "before " + label}, LockStep{Op: "start", P: label, Cmd: class, Wait: "resolved"}, LockStep{Op: "observe", Tag: "after " + label})
+				long = append(long, label)
+			} else {
+				run(label, class)
+			}
+			shape = append(shape, "b:"+class)
+		}
+		// (a long-lived opener that was granted the cache meanwhile keeps the index files locked: A
+		// cannot be waited for until that one is closed)
+		add(LockStep{Op: "resume", P: "A"}, LockStep{Op: "await", P: "A", Ps: long}, LockStep{Op: "observe", Tag: "A resumed"})
+		for _, label := range long {
+			add(LockStep{Op: "signal", P: label, Sig: "SIGINT", IfLive: true}, LockStep{Op: "reap", P: label})
+		}
+		if len(long) > 0 {
+			add(LockStep{Op: "await", P: "A"}, LockStep{Op: "observe", Tag: "A resolved"})
+		}
+		sig := pick(rng, "SIGINT", "SIGTERM", "SIGKILL")
+		add(LockStep{Op: "signal", P: "A", Sig: sig, IfLive: true}, LockStep{Op: "reap", P: "A"}, LockStep{Op: "observe", Tag: "A gone"})
+		shape = append(shape, sig)
+		run("A0", "bug")
+	case "xuid":
+		// holder and openers belong to different accounts: kill(holder, 0) fails with EPERM for the opener
+		holderUid := c19UidA
+		if rng.Intn(3) == 0 {
+			holderUid = 0 // a root-run service on a repository the user can write
+		}
+		holder := pick(rng, "webui", "webui", "webui-ro")
+		prebuilt := rng.Intn(2) == 0
+		runAs := func(label, class string, uid int, guard string) {
+			add(LockStep{Op: "observe", Tag: "before " + label}, LockStep{Op: "run", P: label, Cmd: class, Uid: uid, Guard: guard}, LockStep{Op: "observe", Tag: "after " + label})
+		}
+		if prebuilt {
+			runAs("P0", "bug", holderUid, "")
+		}
+		add(LockStep{Op: "start", P: "H", Cmd: holder, Wait: "ready", Uid: holderUid}, LockStep{Op: "observe", Tag: "holder ready"})
+		shape = append(shape, holder, fmt.Sprintf("holder-uid=%s prebuilt=%v", c19UidName(holderUid), prebuilt))
+		nC := 1 + rng.Intn(2)
+		for c := 0; c < nC; c++ {
+			class := pick(rng, "bug", "bug-new", "user", "webui-ro", "pull", "bug")
+			runAs(fmt.Sprintf("C%d", c), class, c19UidB, "H")
+			shape = append(shape, "c:"+class)
+		}
+		sig := pick(rng, "SIGINT", "SIGTERM", "SIGKILL")
+		add(LockStep{Op: "signal", P: "H", Sig: sig}, LockStep{Op: "reap", P: "H"}, LockStep{Op: "observe", Tag: "holder gone"})
+		shape = append(shape, sig)
+		aUid := c19UidB
+		if rng.Intn(3) == 0 {
+			aUid = holderUid
+		}
+		runAs("A0", "bug", aUid, "")
+		shape = append(shape, "a:bug/"+c19UidName(aUid))
+		if rng.Intn(2) == 0 {
+			class := benign()
+			runAs("A1", class, c19UidB, "")
+			shape = append(shape, "a:"+class)
+		}
 	case "zombie":
 		sig := "SIGKILL"
 		add(LockStep{Op: "start", P: "H", Cmd: "webui", Wait: "ready", Lazy: true}, LockStep{Op: "observe", Tag: "holder ready"},
@@ -285,6 +372,18 @@ func c19Schedule(seed int64, i int) LockSchedule {
 	}
 	s.Shape = kind + "[" + strings.Join(shape, " ") + "]"
 	return s
+}
+
+func c19UidName(uid int) string {
+	switch uid {
+	case 0:
+		return "root"
+	case c19UidA:
+		return "userA"
+	case c19UidB:
+		return "userB"
+	}
+	return strconv.Itoa(uid)
 }
 
 // ---- executor ------------------------------------------------------------------
@@ -328,6 +427,7 @@ type c19Proc struct {
 	werr   error
 	// what the executor already logged
 	loggedBuilding, loggedReady, loggedExit, signalled bool
+	stopped                                            bool // SIGSTOP sent and not yet SIGCONT
 }
 
 func (p *c19Proc) startWait() {
@@ -352,7 +452,8 @@ func (p *c19Proc) exited() bool {
 type C19Result struct {
 	Events       []refmodel.LockEvent
 	Inconclusive string
-	PortBusy     bool // a holder could not bind: retry on other ports
+	PortBusy     bool   // a holder could not bind: retry on other ports
+	NotReached   string // the state the schedule is about could not be set up (hook point missing, window missed)
 	Outcomes     map[string]string
 }
 
@@ -447,7 +548,75 @@ func (e *c19Exec) observe(tag string) {
 	e.log(ev)
 }
 
-func (e *c19Exec) spawn(label, class, delays string, lazy bool) (*c19Proc, error) {
+// openToAll makes everything under dir readable and writable by every account (an environment
+// action of the cross-uid schedules: the repository is shared between accounts).
+func openToAll(dir string) {
+	_ = filepath.Walk(dir, func(path string, info os.FileInfo, err error) error {
+		if err != nil || info.Mode()&os.ModeSymlink != 0 {
+			return nil
+		}
+		m := info.Mode().Perm() | 0o666
+		if info.IsDir() || info.Mode().Perm()&0o100 != 0 {
+			m |= 0o111
+		}
+		if m != info.Mode().Perm() {
+			_ = os.Chmod(path, m)
+		}
+		return nil
+	})
+}
+
+// procStopped says that every thread of pid is in the stopped state (Linux /proc).
+func procStopped(pid int) bool {
+	tasks, err := os.ReadDir(fmt.Sprintf("/proc/%d/task", pid))
+	if err != nil || len(tasks) == 0 {
+		return false
+	}
+	for _, t := range tasks {
+		data, err := os.ReadFile(fmt.Sprintf("/proc/%d/task/%s/stat", pid, t.Name()))
+		if err != nil {
+			return false
+		}
+		st := string(data)
+		i := strings.LastIndexByte(st, ')')
+		if i < 0 || i+2 >= len(st) || (st[i+2] != 'T' && st[i+2] != 't') {
+			return false
+		}
+	}
+	return true
+}
+
+// procUid returns the real uid of a live process (Linux /proc), -1 when unknown.
+func procUid(pid int) int {
+	data, err := os.ReadFile(fmt.Sprintf("/proc/%d/status", pid))
+	if err != nil {
+		return -1
+	}
+	for _, line := range strings.Split(string(data), "\n") {
+		if strings.HasPrefix(line, "Uid:") {
+			if f := strings.Fields(line); len(f) >= 2 {
+				if v, err := strconv.Atoi(f[1]); err == nil {
+					return v
+				}
+			}
+		}
+	}
+	return -1
+}
+
+// c19AsUid makes cmd run under an unprivileged account with a home, config and temp directory of its own below dir.
+func c19AsUid(cmd *exec.Cmd, dir string, uid int) {
+	home := filepath.Join(dir, fmt.Sprintf("home-%d", uid))
+	tmp := filepath.Join(dir, fmt.Sprintf("tmp-%d", uid))
+	for _, d := range []string{home, filepath.Join(home, ".config"), tmp} {
+		_ = os.MkdirAll(d, 0o777)
+		_ = os.Chmod(d, 0o777)
+	}
+	cmd.SysProcAttr = &syscall.SysProcAttr{Credential: &syscall.Credential{Uid: uint32(uid), Gid: uint32(uid)}}
+	cmd.Env = append(cmd.Env, "HOME="+home, "XDG_CONFIG_HOME="+filepath.Join(home, ".config"), "TMPDIR="+tmp, "USER="+c19UidName(uid), "LOGNAME="+c19UidName(uid))
+}
+
+func (e *c19Exec) spawn(label, class, delays string, lazy bool, uid int) (*c19Proc, error) {
 	e.nproc++
 	port := e.sc.Port + e.nproc
 	if class == "webui-busy-port" {
@@ -455,10 +624,18 @@ func (e *c19Exec) spawn(label, class, delays string, lazy bool) (*c19Proc, error
 	}
 	spec := c19Command(class, port)
 	cmd := exec.Command(e.bin, spec.argv...)
+	if e.sc.Kind == "xuid" {
+		// shared repository: no umask (the shell execs git-bug, the pid stays), everything made so far opened up
+		cmd = exec.Command("/bin/sh", append([]string{"-c", `umask 0; exec "$0" "$@"`, e.bin}, spec.argv...)...)
+		openToAll(e.dir)
+	}
 	cmd.Dir = e.repo
 	cmd.Env = os.Environ()
 	if delays != "" {
 		cmd.Env = append(cmd.Env, "VERIF_HOOK_DELAYS="+delays)
+	}
+	if uid != 0 {
+		c19AsUid(cmd, e.dir, uid)
 	}
 	p := &c19Proc{id: e.nproc, label: label, spec: spec, cmd: cmd, port: port, out: newWatchBuf(), errb: newWatchBuf(), done: make(chan struct{})}
 	cmd.Stdout, cmd.Stderr = p.out, p.errb
@@ -467,8 +644,13 @@ func (e *c19Exec) spawn(label, class, delays string, lazy bool) (*c19Proc, error
 	}
 	p.pid = cmd.Process.Pid
 	e.procs[label] = p
+	// the uid recorded is the one the process really has (not reaped yet, so /proc still shows it)
+	realUid := procUid(p.pid)
+	if realUid < 0 {
+		realUid = uid
+	}
 	e.log(refmodel.LockEvent{Kind: "spawn", Proc: p.id, Pid: p.pid, Class: spec.class, Argv: "git-bug " + strings.Join(spec.argv, " "),
-		Opens: spec.opens, Benign: spec.benign, Delays: delays})
+		Opens: spec.opens, Benign: spec.benign, Delays: delays, Uid: realUid})
 	if !lazy {
 		p.startWait()
 	}
@@ -596,6 +778,20 @@ func (e *c19Exec) signal(p *c19Proc, sig string) {
 	_ = p.cmd.Process.Signal(s)
 }
 
+// lockState reads the lock file: (content, exists).
+func (e *c19Exec) lockState() (string, bool) {
+	data, err := os.ReadFile(filepath.Join(e.repo, ".git", "git-bug", "lock"))
+	if err != nil {
+		return "", false
+	}
+	return string(data), true
+}
+
+func (e *c19Exec) lockContent() string {
+	c, _ := e.lockState()
+	return strings.TrimSpace(c)
+}
+
 func (e *c19Exec) cleanup() {
 	for _, p := range e.procs {
 		if !p.exited() {
@@ -609,13 +805,112 @@ func (e *c19Exec) cleanup() {
 	}
 }
 
+// c19Traversable makes sure other accounts can reach dir: every ancestor needs the search bit for
+// "other". Only the directories the driver created for this very run ($SCRATCH and below) are changed.
+func c19Traversable(dir string) string {
+	own := ""
+	if s := os.Getenv("VERIF_SCRATCH"); s != "" {
+		own = filepath.Dir(filepath.Clean(s))
+	}
+	for d := filepath.Clean(dir); d != "/" && d != "."; d = filepath.Dir(d) {
+		info, err := os.Stat(d)
+		if err != nil {
+			return err.Error()
+		}
+		if info.Mode().Perm()&0o001 != 0 {
+			continue
+		}
+		if own == "" || (d != own && !strings.HasPrefix(d, own+"/")) {
+			return fmt.Sprintf("%s cannot be searched by other accounts (mode %v) and is not ours to change", d, info.Mode().Perm())
+		}
+		if err := os.Chmod(d, info.Mode().Perm()|0o011); err != nil {
+			return err.Error()
+		}
+	}
+	return ""
+}
+
+var (
+	c19XuidOnce   sync.Once
+	c19XuidReason string // "" = cross-uid schedules can be run here
+	c19XuidProbe  string // what the probe saw
+)
+
+// c19XuidPreflight finds out whether this environment lets the harness run the git-bug binary under
+// two different unprivileged accounts in a scratch directory, and whether a signal-0 probe from one
+// account to a process of the other one fails (the situation the cross-uid schedules are about).
+// Whatever goes wrong here is a reason not to run those schedules, never a verdict.
+func c19XuidPreflight() string {
+	c19XuidOnce.Do(func() {
+		if os.Geteuid() != 0 {
+			c19XuidReason = fmt.Sprintf("the harness runs as uid %d, not root: it cannot start processes under other accounts", os.Geteuid())
+			return
+		}
+		dir := world.ScratchDir("c19-xuid-probe-")
+		defer os.RemoveAll(dir)
+		_ = os.Chmod(dir, 0o777)
+		if why := c19Traversable(dir); why != "" {
+			c19XuidReason = why
+			return
+		}
+		bin := filepath.Join(os.Getenv("VERIF_BIN"), "git-bug")
+		for _, uid := range []int{c19UidA, c19UidB} {
+			cmd := exec.Command("/bin/sh", "-c", `umask 0; exec "$0" "$@"`, bin, "version")
+			cmd.Dir = dir
+			cmd.Env = os.Environ()
+			c19AsUid(cmd, dir, uid)
+			if out, err := cmd.CombinedOutput(); err != nil {
+				c19XuidReason = fmt.Sprintf("`git-bug version` under uid %d in %s: %v: %s", uid, dir, err, strings.TrimSpace(string(out)))
+				return
+			}
+		}
+		target := exec.Command("/bin/sleep", "300")
+		target.Env = os.Environ()
+		c19AsUid(target, dir, c19UidA)
+		if err := target.Start(); err != nil {
+			c19XuidReason = "cannot start a process under uid " + strconv.Itoa(c19UidA) + ": " + err.Error()
+			return
+		}
+		defer func() { _ = target.Process.Kill(); _ = target.Wait() }()
+		probe := exec.Command("/bin/sh", "-c", "kill -0 "+strconv.Itoa(target.Process.Pid))
+		probe.Env = os.Environ()
+		c19AsUid(probe, dir, c19UidB)
+		out, err := probe.CombinedOutput()
+		switch {
+		case err == nil:
+			c19XuidReason = fmt.Sprintf("kill(pid, 0) from uid %d on a process of uid %d succeeds here: accounts are not separated", c19UidB, c19UidA)
+		case !strings.Contains(strings.ToLower(string(out)), "not permitted"):
+			c19XuidReason = fmt.Sprintf("kill(pid, 0) from uid %d on a process of uid %d: unexpected answer %q", c19UidB, c19UidA, strings.TrimSpace(string(out)))
+		default:
+			c19XuidProbe = fmt.Sprintf("processes run under uid %d (holder; in some schedules root) and uid %d (openers); probe: a live process of uid %d (real uid read back from /proc: %d) answers `kill -0` from uid %d with %q",
+				c19UidA, c19UidB, c19UidA, procUid(target.Process.Pid), c19UidB, strings.TrimSpace(string(out)))
+		}
+	})
+	return c19XuidReason
+}
+
 func runLockSchedule(sc LockSchedule) (res C19Result) {
 	res.Outcomes = map[string]string{}
+	if sc.Kind == "xuid" {
+		if why := c19XuidPreflight(); why != "" {
+			res.NotReached = "cross-uid schedule not exercised: " + why
+			return
+		}
+	}
 	dir := world.ScratchDir("c19-")
 	defer os.RemoveAll(dir)
 	if err := c19Setup(dir, sc.Identity, sc.Bugs); err != nil {
 		res.Inconclusive = "setup: " + err.Error()
 		return
+	}
+	if sc.Kind == "xuid" {
+		// a repository shared between accounts: everything readable and writable by all
+		_ = os.MkdirAll(filepath.Join(dir, "repo", ".git", "git-bug"), 0o777)
+		if why := c19Traversable(dir); why != "" {
+			res.NotReached = "cross-uid schedule not exercised: " + why
+			return
+		}
+		openToAll(dir)
 	}
 	e := &c19Exec{sc: sc, dir: dir, repo: filepath.Join(dir, "repo"), bin: filepath.Join(os.Getenv("VERIF_BIN"), "git-bug"), procs: map[string]*c19Proc{}, res: &res}
 	defer func() {
@@ -623,7 +918,7 @@ func runLockSchedule(sc LockSchedule) (res C19Result) {
 		res.Events = e.events
 	}()
 	for _, st := range sc.Steps {
-		if res.Inconclusive != "" || res.PortBusy {
+		if res.Inconclusive != "" || res.PortBusy || res.NotReached != "" {
 			return
 		}
 		switch st.Op {
@@ -648,7 +943,7 @@ func runLockSchedule(sc LockSchedule) (res C19Result) {
 			}
 			e.lns = append(e.lns, l)
 		case "start", "run":
-			p, err := e.spawn(st.P, st.Cmd, st.Delays, st.Lazy)
+			p, err := e.spawn(st.P, st.Cmd, st.Delays, st.Lazy, st.Uid)
 			if err != nil {
 				res.Inconclusive = "spawn: " + err.Error()
 				return
@@ -660,7 +955,29 @@ func runLockSchedule(sc LockSchedule) (res C19Result) {
 			switch wait {
 			case "none":
 			case "exit":
+				if g := e.procs[st.Guard]; st.Guard != "" && g != nil {
+					// an opener that took the lock of the live holder may then block for ever on the
+					// holder's index files: the lock file no longer naming the holder ends the wait
+					// (an observation of state; the verdict comes from the model)
+					if !e.await(st.P+" to exit or to touch the holder's lock", []*c19Proc{p, g}, func() bool {
+						return p.loggedExit || g.loggedExit || e.lockContent() != strconv.Itoa(g.pid)
+					}) {
+						return
+					}
+					if !p.loggedExit {
+						e.observe(fmt.Sprintf("%s still running, lock file no longer names the holder %s", st.P, st.Guard))
+						e.signal(p, "SIGKILL")
+						e.await(st.P+" to be reaped", []*c19Proc{p}, func() bool { return p.loggedExit })
+						// the log ends here: what follows would only show what the harness's own kill of an
+						// opener in the middle of taking the lock leaves behind
+						e.observe(st.P + " killed by the harness")
+						return
+					}
+					break
+				}
 				e.await(st.P+" to exit", []*c19Proc{p}, func() bool { return p.loggedExit })
+			case "resolved":
+				e.await(st.P+" to be ready or to exit", []*c19Proc{p}, func() bool { return p.loggedReady || p.loggedExit })
 			case "building":
 				// the process must be parked at the cache.build hook: banner seen, still alive
 				if e.await(st.P+" to reach the cache build", []*c19Proc{p}, func() bool { return p.loggedBuilding || p.loggedExit }) && p.loggedExit {
@@ -675,7 +992,56 @@ func runLockSchedule(sc LockSchedule) (res C19Result) {
 				}
 			}
 		case "signal":
-			e.signal(e.procs[st.P], st.Sig)
+			if p := e.procs[st.P]; !st.IfLive || !p.loggedExit {
+				e.signal(p, st.Sig)
+			}
+		case "park":
+			// The process was started with a delay at cache.lock.created. Seeing the lock file exist
+			// and be empty, stop the process; once every thread is seen stopped read the lock file
+			// again: still empty = parked between creation and pid write for as long as we like.
+			p := e.procs[st.P]
+			ok := e.await(st.P+" to create the lock file", []*c19Proc{p}, func() bool {
+				_, exists := e.lockState()
+				return p.loggedExit || p.loggedReady || p.loggedBuilding || exists
+			})
+			if !ok {
+				return
+			}
+			if c, exists := e.lockState(); p.loggedExit || !exists || c != "" {
+				res.NotReached = fmt.Sprintf("%s was not seen between the creation of the lock file and the pid write (hook point cache.lock.created missing from this build of git-bug?)", st.P)
+				return
+			}
+			_ = p.cmd.Process.Signal(syscall.SIGSTOP)
+			p.stopped = true
+			if !e.await(st.P+" to be stopped", []*c19Proc{p}, func() bool { return p.loggedExit || procStopped(p.pid) }) {
+				return
+			}
+			c, exists := e.lockState()
+			if p.loggedExit || !exists || c != "" {
+				res.NotReached = fmt.Sprintf("%s wrote its pid before it could be stopped", st.P)
+				return
+			}
+			e.log(refmodel.LockEvent{Kind: "pause", Proc: p.id, Pid: p.pid, LockExists: exists, LockContent: c,
+				Tag: "SIGSTOP, every thread stopped, then the lock file read: exists and is empty"})
+		case "resume":
+			p := e.procs[st.P]
+			e.log(refmodel.LockEvent{Kind: "resume", Proc: p.id, Pid: p.pid})
+			p.stopped = false
+			_ = p.cmd.Process.Signal(syscall.SIGCONT)
+		case "await":
+			p := e.procs[st.P]
+			watch := []*c19Proc{p}
+			for _, l := range st.Ps {
+				watch = append(watch, e.procs[l])
+			}
+			e.await(st.P+" to be ready or to exit", watch, func() bool {
+				for _, q := range watch[1:] {
+					if q.loggedReady && !q.loggedExit {
+						return true
+					}
+				}
+				return p.loggedReady || p.loggedExit
+			})
 		case "reap":
 			p := e.procs[st.P]
 			p.startWait()
@@ -778,6 +1144,11 @@ func runC19(tier, replay string) int {
 		return res
 	})
 	zombie := map[string]int{}
+	notReached := map[string]int{}
+	perKind := map[string]int{}
+	for _, sc := range scs {
+		perKind[sc.Kind]++
+	}
 	for i, res := range results {
 		sc := scs[i]
 		if replay != "" || (os.Getenv("VERIF_DEBUG") != "" && res.Inconclusive != "") {
@@ -789,6 +1160,15 @@ func runC19(tier, replay string) int {
 		if res.PortBusy || res.Inconclusive != "" {
 			r.Case("inconclusive", false)
 			r.Inconclusive(sc.Name + ": " + res.Inconclusive)
+			continue
+		}
+		if res.NotReached != "" {
+			// the situation the schedule is about could not be produced: no verdict, not counted
+			r.Case("not-reached:"+sc.Kind, false)
+			r.Count("schedules_not_reached/"+sc.Kind, 1)
+			r.Seen("schedules_not_reached", sc.Kind+": "+res.NotReached)
+			r.Inconclusive(sc.Name + ": " + res.NotReached)
+			notReached[sc.Kind]++
 			continue
 		}
 		findings, st := refmodel.CheckLockLog(res.Events)
@@ -807,6 +1187,18 @@ func runC19(tier, replay string) int {
 		r.Count("live_lock_checks", st.LiveLockChecks)
 		r.Count("exit_followed_by_lock_check", st.SelfExitLockChecks)
 		r.Count("attempts_unresolved", st.Unresolved)
+		r.Count("created_window/processes_parked_between_lock_creation_and_pid_write", st.CreatedWindows)
+		r.Count("created_window/open_attempts_while_parked", st.CreatedWindowAttempts)
+		r.Count("created_window/lock_file_checks_while_parked", st.CreatedWindowChecks)
+		for k, v := range st.CreatedWindowOutcomes {
+			r.Count("created_window/attempt_outcome/"+k, v)
+		}
+		r.Count("cross_uid/attempts_against_a_proven_holder_of_another_uid", st.CrossUidAttempts)
+		if sc.Kind == "created" {
+			if a := res.Outcomes["A:webui"]; a != "" {
+				r.Seen("created_window_creator_after_resume", a)
+			}
+		}
 		for k, v := range st.OpensAfter {
 			r.Count("open_succeeded_after/"+k, v)
 		}
@@ -851,14 +1243,31 @@ func runC19(tier, replay string) int {
 	}
 	r.Extra("zombie_holder_probe(informational: holder killed, not yet reaped; the model accepts both outcomes)", zombie)
 	r.Extra("port_base", base)
+	if perKind["xuid"] > 0 {
+		if why := c19XuidPreflight(); why != "" {
+			r.Extra("cross_uid", "NOT EXERCISED: "+why)
+		} else {
+			r.Extra("cross_uid", "exercised: "+c19XuidProbe)
+		}
+	}
+	for _, kind := range []string{"created", "xuid"} {
+		if n := notReached[kind]; n > 0 {
+			// a harness message, not a verdict: the schedules are left out of the counts
+			fmt.Printf("HARNESS-NOTE property=C19 %d of %d %q schedules did not reach the situation they are about and were not counted (see schedules_not_reached in the evidence)\n", n, perKind[kind], kind)
+		}
+	}
 	return r.Finish("process schedules on fresh repositories, list = f(seed, tier): contend (web UI holder ready, 0..2 contenders, SIGINT/SIGTERM/SIGKILL, 1..2 new openers), "+
 		"build (process parked at the cache.build hook with the lock taken, optional contender, signal, new openers), failing (1..3 failing commands each followed by a lock-file check, with and without identity), "+
-		"chain (successful commands incl. wipe, lock check after each), torn (empty lock file as left by a kill between create and write, then openers), toctou (two openers started together, delayed at cache.lock.window by 1.2 s and 4 s, so both pass the availability check before either creates the lock), zombie (informational); "+
+		"chain (successful commands incl. wipe, lock check after each), torn (empty lock file as left by a kill between create and write, then openers), toctou (two openers started together, delayed at cache.lock.window by 1.2 s and 4 s, so both pass the availability check before either creates the lock), zombie (informational), "+
+		"created (an opener delayed at cache.lock.created and then stopped with SIGSTOP while the lock file it created is still empty; 1..2 other openers incl. long-lived ones run meanwhile; it is resumed and must be the only one granted the cache; the lock file is checked while it is parked), "+
+		"xuid (holder under one account or root, openers under another unprivileged account for which kill(holder,0) is EPERM, repository writable by all; same refusal / unchanged / stale-lock recovery rules); "+
 		"the recorded event log is checked offline by refmodel.CheckLockLog; non-trivial = at least 2 resolved open attempts and 2 observations; distinct = distinct schedule shape (kind, holder, contender classes, signal, later openers)",
 		r.Pick(12, 60), []string{
 			"a process is taken to hold the cache from the moment it printed the cache-build banner or (web UI) its URL while owning its listening socket, until the harness signals it or it is reaped",
 			"a command that exits 0 is taken to have opened the cache",
 			"hook delays (VERIF_HOOK_DELAYS) only steer; no verdict depends on elapsed time",
+			"a process stopped with SIGSTOP (all threads seen in state T) while the lock file exists and is empty, being the only live process of the schedule and the file being absent before its start, is a live process between its exclusive creation of the lock file and its pid write; that file is its lock",
+			"created / xuid schedules whose situation cannot be produced (hook point absent from the build, accounts not separable in this environment) are reported as not reached and left out of the counts",
 		})
 }
 
